@@ -239,6 +239,13 @@ theorem fsText_pv (cop : COp) (rel : List Nat) (w : Bool) :
       ".".intercalate (rel.map toString) ++ (if w then ".*" else "") := by
   simp [fsText, fsPad, Ver.str]
 
+theorem all_digits_map (l : List Nat) :
+    (l.map toString).all (fun p => (natOfDigits? p.toList).isSome) = true := by
+  rw [List.all_eq_true]
+  intro p hp
+  obtain ⟨n, _, rfl⟩ := List.mem_map.1 hp
+  rw [natOfDigits_toString']; rfl
+
 /-- the shape of the normalisation for any atom with these fields -/
 theorem norm_shape (a : Atom) (cop : COp) (rel : List Nat) (w : Bool) (hrel : rel ≠ [])
     (hname : a.name = "python_version") (hop : a.op = MOp.ofCOp cop) (hrev : a.reversed = false)
@@ -261,8 +268,10 @@ theorem norm_shape (a : Atom) (cop : COp) (rel : List Nat) (w : Bool) (hrel : re
       splitDots_wild _ rel hrel (by rw [String.toList_append, toList_join_plain]; rfl)
     simp only [if_true, hs0] at hns
     have : (rel.map toString ++ ["*"]).contains "*" = true := by simp
-    simp only [this, if_true, Option.some.injEq] at hns
-    exact hns.symm
+    simp only [this, if_true] at hns
+    split at hns
+    · simp only [Option.some.injEq] at hns; exact hns.symm
+    · simp at hns
   | false =>
     have hs0 : (splitDots (".".intercalate (rel.map toString) ++ "")).map trimS = rel.map toString :=
       splitDots_plain _ rel hrel (by rw [String.append_empty, toList_join_plain])
@@ -272,9 +281,10 @@ theorem norm_shape (a : Atom) (cop : COp) (rel : List Nat) (w : Bool) (hrel : re
       subst hcomp
       left
       refine ⟨?_, Or.inr (Or.inl rfl)⟩
-      simp only [MOp.ofCOp, bne_self_eq_false, Bool.false_eq_true, if_false, Bool.and_false] at hns
+      simp only [MOp.ofCOp, bne_self_eq_false, Bool.false_eq_true, if_false, Bool.and_false, all_digits_map,
+        Bool.not_true, Bool.or_false] at hns
       split at hns
-      · simp only [Option.some.injEq] at hns; exact hns.symm
+      · simp at hns
       · simp only [pvTarget, Option.bind_some] at hns
         unfold Atom.WF getSpecifier at hwf
         simp only [MOp.ofCOp] at hwf
@@ -286,12 +296,10 @@ theorem norm_shape (a : Atom) (cop : COp) (rel : List Nat) (w : Bool) (hrel : re
         simp only [Option.some.injEq] at hns
         exact hns.symm
     · have hb : (MOp.ofCOp cop != MOp.compat) = true := by cases cop <;> first | rfl | exact absurd rfl hcomp
-      simp only [hb, if_true, dropZeroSegs_map, List.length_map, Bool.and_true] at hns
+      simp only [hb, if_true, dropZeroSegs_map, List.length_map, Bool.and_true, all_digits_map, Bool.not_true,
+        Bool.or_false] at hns
       split at hns
-      · rename_i hlong
-        left
-        simp only [Option.some.injEq] at hns
-        exact ⟨hns.symm, Or.inr (Or.inr (dropZ_long rel (by simpa using hlong)))⟩
+      · simp at hns
       · rename_i hlen
         right
         have hlen1 := dropZ_length rel hrel
